@@ -104,7 +104,7 @@ class Gen:
                 items.append(('attr', r.choice(ATTRS)))
             else:
                 items.append(('class', '.' + self.name()))
-        if allow_amp and r.random() < 0.15 and items[-1][0] != 'elem':
+        if allow_amp and r.random() < 0.15 and items[-1][0] != 'elem' and not ('noglue' in self.f and items[-1][0] == 'amp'):
             # (an & glued to an element name would make a new element name, 'body&' under 'section' = 'bodysection':
             #  CSS the front end of lesscpy does not read back, outside the fragment)
             items.append(('amp',))
